@@ -129,6 +129,12 @@ func c07(c *Ctx) {
 		r.Break("C07.D2 anchors missing (applyProto parameters / fields)")
 		return
 	}
+	// the region in which mark -> re-encode -> store is checked: the deferred literal itself, or a helper it calls (below)
+	flg := lg
+	rmsg, rl := msgParam, lParam
+	var rnode ast.Node = deferLit
+	rbody := deferLit.Body
+	var helper *load.FuncInfo
 	isMark := func(v *cfgx.Vertex) bool {
 		as, ok := v.Node.(*ast.AssignStmt)
 		if !ok || len(as.Lhs) != 1 || len(as.Rhs) != 1 {
@@ -139,7 +145,7 @@ func c07(c *Ctx) {
 			return false
 		}
 		id, ok := ast.Unparen(se.X).(*ast.Ident)
-		return ok && astx.Obj(info, id) == msgParam && refersTo(info, as.Rhs[0], pathRobust, "MessageOfDeath")
+		return ok && astx.Obj(info, id) == rmsg && refersTo(info, as.Rhs[0], pathRobust, "MessageOfDeath")
 	}
 	isDataAssign := func(v *cfgx.Vertex) bool {
 		as, ok := v.Node.(*ast.AssignStmt)
@@ -151,14 +157,14 @@ func c07(c *Ctx) {
 			return false
 		}
 		id, ok := ast.Unparen(se.X).(*ast.Ident)
-		return ok && astx.Obj(info, id) == lParam
+		return ok && astx.Obj(info, id) == rl
 	}
 	isStore := func(fn *types.Func, call *ast.CallExpr) bool {
 		if !isFunc(fn, "raftstore", "(*LevelDBStore).StoreLogProto") || len(call.Args) != 1 {
 			return false
 		}
 		id, ok := ast.Unparen(call.Args[0]).(*ast.Ident)
-		if !ok || astx.Obj(info, id) != lParam {
+		if !ok || astx.Obj(info, id) != rl {
 			return false
 		}
 		se, ok := ast.Unparen(call.Fun).(*ast.SelectorExpr)
@@ -174,11 +180,75 @@ func c07(c *Ctx) {
 			storeV = v.ID
 		}
 	}
+	// the marking may live in a helper method of package main that the handler calls with (l, msg) on the recover path:
+	// the helper's body is then the region in which mark -> re-encode -> store is checked
+	helperCallV := -1
+	if storeV < 0 {
+		for _, v := range lg.Nodes() {
+			if v.Node == nil || !reach[v.ID] {
+				continue
+			}
+			for _, call := range astx.Calls(v.Node, false) {
+				fn := astx.Callee(info, call)
+				if fn == nil {
+					continue
+				}
+				h := c.P.FuncOf(fn)
+				if h == nil || h.Body() == nil || load.ShortPkg(h.Pkg.PkgPath) != "main" {
+					continue
+				}
+				hm, hl := paramOfType(h, pathRobust, "Message"), paramOfType(h, pathProto, "RaftLog")
+				if hm == nil || hl == nil {
+					continue
+				}
+				// called with the handler's own entry and message
+				okArgs := false
+				k := 0
+				var am, al ast.Expr
+				for _, fld := range h.FuncType().Params.List {
+					for _, nm := range fld.Names {
+						if k < len(call.Args) {
+							if h.Info().Defs[nm] == hm {
+								am = call.Args[k]
+							}
+							if h.Info().Defs[nm] == hl {
+								al = call.Args[k]
+							}
+						}
+						k++
+					}
+				}
+				if mid, ok := ast.Unparen(am).(*ast.Ident); am != nil && ok && astx.Obj(info, mid) == msgParam {
+					if lid, ok := ast.Unparen(al).(*ast.Ident); al != nil && ok && astx.Obj(info, lid) == lParam {
+						okArgs = true
+					}
+				}
+				if !okArgs {
+					continue
+				}
+				rmsg, rl = hm, hl
+				hg := c.Graph(h)
+				sv := -1
+				for _, hv := range hg.Nodes() {
+					if containsCall(h.Info(), hv, isStore) {
+						sv = hv.ID
+					}
+				}
+				if sv < 0 {
+					rmsg, rl = msgParam, lParam
+					continue
+				}
+				helper, helperCallV = h, v.ID
+				lg, storeV = hg, sv
+				rnode, rbody, name = h.Node(), h.Body(), h.Name()
+			}
+		}
+	}
 	r.Check(storeV >= 0, "C07.D2", name, "fsm.store.StoreLogProto(l) present", c.P.Pos(deferLit.Pos()), "found",
 		"the deferred function does not write the marked entry back with fsm.store.StoreLogProto(l) (the raft log store, on the entry being applied)")
 	// the terminating call that reports the panic value
 	nFinal := 0
-	for _, v := range lg.Nodes() {
+	for _, v := range flg.Nodes() {
 		es, ok := v.Node.(*ast.ExprStmt)
 		if !ok {
 			continue
@@ -197,11 +267,25 @@ func c07(c *Ctx) {
 		}
 		nFinal++
 		pos := c.P.Pos(call.Pos())
-		okStore := storeV >= 0 && lg.DominatedBy(v.ID, func(x *cfgx.Vertex) bool { return x.ID == storeV })
-		if okStore {
-			// the store's error must lead to termination too: the reporting call is on its nil-error edge
-			okNil, _ := c.errNilAfterCallLit(info, deferLit, lg, v.ID, isStore)
-			okStore = okNil
+		var okStore bool
+		if helper == nil {
+			okStore = storeV >= 0 && lg.DominatedBy(v.ID, func(x *cfgx.Vertex) bool { return x.ID == storeV })
+			if okStore {
+				// the store's error must lead to termination too: the reporting call is on its nil-error edge
+				okNil, _ := c.errNilAfterCallLit(info, deferLit, lg, v.ID, isStore)
+				okStore = okNil
+			}
+		} else {
+			// the helper is called before the report, cannot return without having stored, and a store error is fatal in it
+			okStore = flg.DominatedBy(v.ID, func(x *cfgx.Vertex) bool { return x.ID == helperCallV }) &&
+				!lg.Reach(lg.Entry, func(x int) bool { return x == storeV }, nil)[lg.Exit]
+			if okStore {
+				for _, sc := range callsIn(helper, isStore) {
+					if !c.errorEdgeFatal(helper, lg, sc) {
+						okStore = false
+					}
+				}
+			}
 		}
 		r.Check(okStore, "C07.D2", name, "die only after the marked entry is stored", pos, "StoreLogProto(l) dominates, on its nil-error edge",
 			"the process can terminate with the panic before the entry has been durably marked as message of death (or the store's error is ignored): every restart replays the poisonous entry")
@@ -220,8 +304,8 @@ func c07(c *Ctx) {
 		// the re-encoded bytes derive from msg in both encodings
 		if dataV >= 0 {
 			as := lg.V[dataV].Node.(*ast.AssignStmt)
-			deps := flowx.Compute(info, deferLit).Of(as.Rhs[0])
-			hasMsg := deps[msgParam]
+			deps := flowx.Compute(info, rnode).Of(as.Rhs[0])
+			hasMsg := deps[rmsg]
 			hasProto, hasJSON := false, false
 			for o := range deps {
 				if f, ok := o.(*types.Func); ok {
@@ -234,7 +318,7 @@ func c07(c *Ctx) {
 				}
 			}
 			// the value marshalled is the marked message itself, not a partial copy
-			for _, mc := range astx.Calls(deferLit.Body, false) {
+			for _, mc := range astx.Calls(rbody, false) {
 				fn := astx.Callee(info, mc)
 				if fn == nil || fname(fn) != "Marshal" || len(mc.Args) != 1 {
 					continue
@@ -243,12 +327,12 @@ func c07(c *Ctx) {
 				okSelf := false
 				if pc, isCall := arg.(*ast.CallExpr); isCall { // msg.ProtoMessage()
 					if se, isSel := ast.Unparen(pc.Fun).(*ast.SelectorExpr); isSel && se.Sel.Name == "ProtoMessage" {
-						if id, isID := ast.Unparen(se.X).(*ast.Ident); isID && astx.Obj(info, id) == msgParam {
+						if id, isID := ast.Unparen(se.X).(*ast.Ident); isID && astx.Obj(info, id) == rmsg {
 							okSelf = true
 						}
 					}
 				}
-				if id, isID := arg.(*ast.Ident); isID && astx.Obj(info, id) == msgParam {
+				if id, isID := arg.(*ast.Ident); isID && astx.Obj(info, id) == rmsg {
 					okSelf = true
 				}
 				r.Check(okSelf, "C07.D2", name, "the marked message itself is re-encoded ("+astx.Str(mc.Fun)+")", c.P.Pos(mc.Pos()), "marshals msg / msg.ProtoMessage()",
@@ -370,6 +454,18 @@ func c07(c *Ctx) {
 				return true
 			}
 			inDefer := fi == ap && deferLit.Pos() <= n.Pos() && n.End() <= deferLit.End()
+			// … or inside the marking helper, which is called from nowhere but that handler
+			if !inDefer && helper != nil && fi == helper {
+				only := true
+				for _, caller := range c.P.AllFuncs {
+					for _, call := range callsIn(caller, func(fn *types.Func, _ *ast.CallExpr) bool { return fn == helper.Obj }) {
+						if !(caller == ap && deferLit.Pos() <= call.Pos() && call.End() <= deferLit.End()) {
+							only = false
+						}
+					}
+				}
+				inDefer = only
+			}
 			r.Check(inDefer, "C07.D5", fi.Name(), "writes Type = MessageOfDeath", c.P.Pos(n.Pos()), "inside applyProto's recover handler",
 				"a message is marked as message of death outside the recover handler: a healthy entry would be skipped on every replica that replays it")
 			return true
